@@ -69,7 +69,9 @@ class C48(Prop):
     rule = ('every history up to length 3 over an alphabet of 9 operations (8 in the quick tier), length 4 over 6 of them (thorough): '
             '(numbered / named / no-run-name install, clean run1 / run2 / runN / all, remove runN, re-point runN at '
             'run1), plus random histories (3-9 ops quick, 3-14 thorough) in numbered / named / mixed styles with '
-            'reinstalls, reserved and colliding run names, cleans biased to the latest and the oldest run; '
+            'reinstalls, reserved and colliding run names, cleans biased to the latest and the oldest run; long '
+            'numbered histories (10-12 installs, then the runN link lost by cleaning the latest run / removing it, '
+            'older runs cleaned, then more installs) so that run numbers of different digit counts coexist; '
             'class = set of branch tags of the history (install ok/refused, after relink, clean latest/other, '
             'number re-issued after clean, ...)')
     workers = 16
@@ -142,6 +144,7 @@ class C48(Prop):
             mk({'op': 'flat'}, I, N('a'), {'op': 'flat'}, {'op': 'reinstallFlat'}, {'op': 'cleanAll'}, I),
             mk(I, {'op': 'reinstall', 'run': 'run1'}, I, {'op': 'reinstall', 'run': 'run1'}, {'op': 'reinstall', 'run': 'run7'}),
             mk(I, N('a'), {'op': 'flat'}, {'op': 'cleanAll'}, {'op': 'cleanAll'}, N('a'), I),
+            mk(*([I] * 10 + [{'op': 'rmN'}, I, C('run11'), C('run3'), I, I])),      # two-digit numbers without a runN link
         ]
 
     ALPHABET = [
@@ -164,9 +167,34 @@ class C48(Prop):
                 if ops[0]['op'] in ('clean', 'cleanN', 'relink'):
                     continue
                 yield {'ops': [dict(o) for o in ops]}
+        # long numbered histories: run numbers with different digit counts (>= 10 runs), then the runN link goes
+        # missing (latest run cleaned / link removed / clean runN) possibly with older runs cleaned, then more installs
+        for _ in range({'quick': 5, 'thorough': 40, 'search': 60}[tier]):
+            yield self.long_case(rng)
         n_rand = {'quick': 130, 'thorough': 1200, 'search': 2500}[tier]
         for _ in range(n_rand):
             yield self.random_case(rng, long=(tier != 'quick'))
+
+    def long_case(self, rng):
+        n = rng.randint(10, 12)
+        ops = [{'op': 'install'} for _ in range(n)]
+        top = n
+        for _ in range(rng.randint(1, 3)):
+            r = rng.random()
+            if r < 0.4:
+                ops.append({'op': 'clean', 'run': f'run{top}'})       # the latest: clean removes runN
+                top -= 1
+            elif r < 0.55:
+                ops.append({'op': 'rmN'})
+            elif r < 0.7:
+                ops.append({'op': 'cleanN'})
+                top -= 1
+            else:
+                ops.append({'op': 'clean', 'run': f'run{rng.randint(1, top)}'})
+        if not any(o['op'] in ('rmN', 'cleanN') or o.get('run') == f'run{n}' for o in ops):
+            ops.append({'op': rng.choice(['rmN', 'cleanN'])})
+        ops += [{'op': 'install'} for _ in range(rng.randint(2, 3))]
+        return {'ops': ops}
 
     def random_case(self, rng, long=False):
         ops = []
@@ -305,6 +333,7 @@ class C48(Prop):
         issued = []
         relinked = False
         prev_runs = []
+        prev_n = None
         for op, o in zip(inp['ops'], obs):
             k = op['op']
             ok = o['res'] == 'ok'
@@ -313,6 +342,8 @@ class C48(Prop):
                     n = int(o['run'][3:])
                     if n in issued:
                         tags.add('number-reissued-after-clean')
+                    if n >= 10 and prev_n is None:
+                        tags.add('two-digit-number-without-runN')
                     issued.append(n)
                     nums = [int(r[0][3:]) for r in prev_runs if re.fullmatch(r'run\d+', r[0])]
                     if nums and n > max(nums) + 0 and len(nums) < max(nums):
@@ -335,6 +366,7 @@ class C48(Prop):
             else:
                 tags.add(k)
             prev_runs = o['runs']
+            prev_n = o['runN']
         return '+'.join(sorted(tags)) or None
 
     def neighbours(self, inp, rng):
